@@ -79,10 +79,17 @@ pub fn main_authz(args: &[String]) -> anyhow::Result<()> {
     let mode = args[0].clone();
     let file = args.get(1).cloned().unwrap_or_default();
     let dir = tempfile::tempdir()?;
-    let d = dir.path().to_string_lossy().into_owned();
+    let d = std::env::var("RNVERIF_DATA_DIR").unwrap_or(dir.path().to_string_lossy().into_owned());
     std::env::set_var("RNACOS_ENABLE_OPEN_API_AUTH", "true");
     std::env::set_var("RNACOS_CONSOLE_ENABLE_CAPTCHA", "false");
     std::env::set_var("RNACOS_CLUSTER_TOKEN", "verif-cluster-token");
+    if args[0] == "c16-restore-prepare" || args[0] == "c16-restore-check" {
+        // a real login (3 s token life time) on a single-member node; the token survives in snapshot + log
+        std::env::set_var("RNVERIF_LEADER", "1");
+        std::env::set_var("RNACOS_API_LOGIN_TIMEOUT", "3");
+        std::env::set_var("RNACOS_INIT_ADMIN_USERNAME", "admin");
+        std::env::set_var("RNACOS_INIT_ADMIN_PASSWORD", "admin-pw-16");
+    }
     if args[0] == "grpc" || args[0] == "grpc-inventory" {
         std::env::set_var("RNVERIF_LEADER", "1");
     }
@@ -96,6 +103,48 @@ pub fn main_authz(args: &[String]) -> anyhow::Result<()> {
         match mode.as_str() {
             "grpc" | "grpc-inventory" => {
                 crate::grpcauth::run(app.clone(), mode.as_str(), &file).await?;
+            }
+            "c16-restore-prepare" | "c16-restore-check" => {
+                let w = crate::node::exec(&app, &json!({"op":"wait_leader","ms":20000})).await;
+                if w["res"] != "ok" {
+                    return Err(anyhow::anyhow!("node did not become leader"));
+                }
+                let conf = app.sys_config.deref().clone();
+                let svc = test::init_service(App::new().app_data(web::Data::new(app.clone())).app_data(web::Data::new(app.config_addr.clone())).app_data(web::Data::new(app.naming_addr.clone())).app_data(web::Data::new(app.bi_stream_manage.clone())).wrap(rnacos::openapi::middle::auth_middle::ApiCheckAuth::new(app.clone())).configure(app_config(conf))).await;
+                let probe = |tok: String| {
+                    test::TestRequest::get().uri(&format!("/nacos/v1/cs/configs?dataId=restore16&group=g&accessToken={}", tok)).to_request()
+                };
+                if mode == "c16-restore-prepare" {
+                    // the admin user is created asynchronously after the node became leader
+                    let mut token = String::new();
+                    for _ in 0..40 {
+                        let req = test::TestRequest::post().uri("/nacos/v1/auth/login").insert_header(("Content-Type", "application/x-www-form-urlencoded")).set_payload("username=admin&password=admin-pw-16").to_request();
+                        let resp = test::call_service(&svc, req).await;
+                        let body = test::read_body(resp).await;
+                        let v: Value = serde_json::from_slice(&body).unwrap_or(Value::Null);
+                        if let Some(t) = v["accessToken"].as_str() {
+                            token = t.to_string();
+                            break;
+                        }
+                        tokio::time::sleep(std::time::Duration::from_millis(250)).await;
+                    }
+                    if token.is_empty() {
+                        return Err(anyhow::anyhow!("login did not return a token"));
+                    }
+                    let resp = svc.call(probe(token.clone())).await;
+                    let works = match resp { Ok(r) => decision(&r)["decision"] != "forbidden", Err(e) => e.as_response_error().status_code().as_u16() != 403 };
+                    // the state (with the live token) goes into a snapshot, as the snapshot policy would do it
+                    let c = crate::node::exec(&app, &json!({"op":"compact"})).await;
+                    println!("{}", json!({"kind":"token","token":token,"works":works,"compact":c["res"]}));
+                    tokio::time::sleep(std::time::Duration::from_millis(700)).await;
+                } else {
+                    let token = file.clone();
+                    // well past the token's life time
+                    tokio::time::sleep(std::time::Duration::from_millis(4500)).await;
+                    let resp = svc.call(probe(token)).await;
+                    let d = match resp { Ok(r) => decision(&r), Err(e) => { let st = e.as_response_error().status_code().as_u16(); json!({"decision": if st == 403 {"forbidden"} else {"handled"}, "status": st}) } };
+                    println!("{}", json!({"kind":"restored","d":d}));
+                }
             }
             "inventory" => {
                 let console = test::init_service(App::new().app_data(web::Data::new(app.clone())).app_data(web::Data::new(app.config_addr.clone())).app_data(web::Data::new(app.naming_addr.clone())).app_data(web::Data::new(app.bi_stream_manage.clone())).configure(console_config).route("/__verif_routes", web::get().to(resource_map_probe))).await;
